@@ -9,7 +9,7 @@ from ..pools import pick, subset
 
 ID = "C11"
 LEVEL = "exploration"
-RUNS = {"quick": 4000, "thorough": 200000}
+RUNS = {"quick": 8000, "thorough": 200000}
 REQUIRED_FAULTS = ["F5.refused_api_call", "F9.restart_path"]
 MACHINES = ["M-CI"]
 
